@@ -493,7 +493,7 @@ def sequence(ctx, length):
 
 
 def run(ctx):
-    n = ctx.n(200, 700)
+    n = ctx.n(200, 3000)
     length = 10 if ctx.tier == 'quick' else 20
     for it in range(n):
         if ctx.out_of_time():
